@@ -177,6 +177,8 @@ pub fn messages() -> Vec<Msg> {
     let mut m = base_request(vec![("user-agent", "x")]);
     m.headers.push((s("x-big"), big));
     v.push(m);
+    // cookie values that themselves contain '=' (base64 padding, nested key=value), an empty value, a bare name
+    v.push(base_request(vec![("cookie", "sid=YWJjZA==; theme=dark"), ("cookie", "prefs=lang=en; e=; bare; =v"), ("user-agent", "x")]));
     for method in ["POST", "OPTIONS", "DELETE"] {
         let mut m = base_request(vec![("content-length", "3")]);
         m.method = s(method);
